@@ -35,5 +35,11 @@ def register(reg):
                                  'x in self._history_cache))')],
         loops={0: LoopSpec('for hashX in set(cache).intersection(touched)',
                            invariants=[('evicted', 'forall(lambda x=Bytes: (x in cache) == (x in old(self._history_cache) and not (x in _done)))')]),
-               1: LoopSpec('for session in self.sessions', invariants=[('cache-stable', 'True')])},
+               1: LoopSpec('for session in self.sessions',
+                           invariants=[('every-session-so-far-was-handed-the-notification',
+                                        'forall(lambda s=SessionRef: implies(s in _done, s in g_sp))')],
+                           ghost_pre=['g_sp = empty(SessionRef)'])},
+        ghost={('after', 'await group.spawn(session.notify, touched, height_changed)'): ['g_sp = add(g_sp, session)'],
+               'exit': ['check("every-connected-session-is-notified", forall(lambda s=SessionRef: implies(s in self.sessions, s in g_sp)))']},
+        locals={'g_sp': Set(Session)},
         props=['C10', 'C07'])
